@@ -4,7 +4,7 @@ from collections import Counter
 from hypothesis import strategies as st
 
 from vlib import intervals as iv
-from vlib.runner import Violation, sut
+from vlib.runner import Stats, Violation, sut
 
 ID = "C15"
 RULE = (
@@ -113,3 +113,32 @@ def run_case(case):
     if any(e["s"] <= ia[0] and ia[1] <= e["s"] + e["d"] and ia[1] > ia[0] for e in b for ia in ivs_a):
         classes.append("one_inside_two")
     return {"nontrivial": multi, "classes": classes, "evals": 1}
+
+
+# ---------------------------------------------------------------------------
+# exhaustive small scope
+
+EXHAUSTIVE_NOTE = "extra phase 'small_scope': union_no_overlap on every pair of sorted, internally non-overlapping lists of <= N events with integer ms edges in [0, G] (quick G=4,N=3: 87 616 pairs; thorough G=5,N=4: 3 598 609 pairs)"
+
+
+def extra_phases(tier, seed, jobs):
+    g, n = (4, 3) if tier == "quick" else (5, 4)
+    return [("small_scope", "phase_small_scope", [{"i": i, "n": jobs, "grid": g, "max_n": n} for i in range(jobs)])]
+
+
+def phase_small_scope(task):
+    st_ = Stats()
+    lay = iv.all_layouts(task["grid"], task["max_n"])
+    for a in iv.shard(lay, task["i"], task["n"]):
+        ea = [{"s": s, "d": e - s, "l": "ab"[k % 2], "id": k + 1} for k, (s, e) in enumerate(a)]
+        for b in lay:
+            case = {"a": ea, "b": [{"s": s, "d": e - s, "l": "xy"[k % 2]} for k, (s, e) in enumerate(b)]}
+            try:
+                run_case(case)
+            except Violation as v:
+                st_.failure = {"kind": "case", "case": case, "message": v.msg}
+                return st_
+            st_.evals += 1
+    st_.classes["pairs_enumerated"] = st_.evals
+    st_.notes["pairs_enumerated"] = st_.evals
+    return st_
